@@ -621,11 +621,13 @@ func (o *opsGen) stepRec(f *family, stepNo int, mateProb float64, mutWeights []i
 	g := f.pick(r)
 	if r.Float64() < mateProb && len(f.members) > 1 {
 		g2 := f.pick(r)
+		cross := false
 		if prop == "C01" && f.sibling != nil && r.Intn(3) == 0 {
 			// parents from independently numbered lineages: the same number may denote different links
 			g2 = f.sibling.pick(r)
+			cross = true // (the caller recognises the sibling's member by identity: no copies here)
 		}
-		if r.Intn(6) == 0 {
+		if !cross && r.Intn(6) == 0 {
 			// parents in shapes evolution rarely reaches but the property allows: every gene disabled (the child
 			// then has no enabled gene either), or weights at the bottom of the float range (where halving before
 			// adding is not the same as adding before halving)
